@@ -79,6 +79,8 @@ type Config struct {
 	Monitors   map[string]bool
 	ModulePath string
 	DumpDir    string
+	Publish    func([]int)
+	Witnessed  func(string) bool
 }
 
 type Exec struct {
@@ -246,7 +248,7 @@ func (ex *Exec) chooseGuarded(guards []*Term, what string) int {
 	base := append([]int(nil), ex.decisions...)
 	for _, alt := range feas[1:] {
 		w := append(append([]int(nil), base...), alt)
-		ex.newWork = append(ex.newWork, w)
+		ex.publish(w)
 	}
 	if len(feas) > 1 {
 		ex.res.Forks++
@@ -297,6 +299,14 @@ func (ex *Exec) branchAt(c *Term, fr *Frame, at ssa.Instruction) bool {
 	return r
 }
 
+func (ex *Exec) publish(w []int) {
+	if ex.cfg.Publish != nil {
+		ex.cfg.Publish(w)
+		return
+	}
+	ex.newWork = append(ex.newWork, w)
+}
+
 // determine asks the solver which sides of c are feasible under the path
 // condition: 0 = only true, 1 = only false, 2 = both. The answer is recorded in
 // the decision vector so that replays of a prefix do not ask again.
@@ -334,7 +344,7 @@ func (ex *Exec) forkBoth(c *Term) bool {
 		return d == 0
 	}
 	base := append([]int(nil), ex.decisions...)
-	ex.newWork = append(ex.newWork, append(base, 1))
+	ex.publish(append(base, 1))
 	ex.res.Forks++
 	ex.record(0)
 	ex.assume(c)
@@ -424,9 +434,7 @@ func (ex *Exec) modelTerms() []*Term {
 			ts = append(ts, r.t)
 		}
 		if r.Kind == "havoc" {
-			for j := 0; j < r.n; j++ {
-				ts = append(ts, ex.ts.Select(r.tArr, ex.ts.BV(uint64(j), 32)))
-			}
+			ts = append(ts, ex.ts.SelIdx[r.tArr]...)
 		}
 	}
 	return ts
@@ -451,20 +459,33 @@ func (ex *Exec) nondetOut(sol *Solver) []NondetRec {
 			k++
 		}
 	}
-	// havoc arrays: evaluate selects
+	// havoc arrays: only the bytes the path actually read matter; evaluate the
+	// index terms in the model, then the array at those indices
 	for i := range recs {
 		if recs[i].Kind != "havoc" {
 			continue
 		}
-		n := recs[i].n
-		sel := make([]*Term, n)
-		for j := 0; j < n; j++ {
-			sel[j] = ex.ts.Select(recs[i].havocArr(), ex.ts.BV(uint64(j), 32))
+		idxT := ex.ts.SelIdx[recs[i].tArr]
+		idxV := sol.GetValues(idxT)
+		seen := map[uint64]bool{}
+		var sel []*Term
+		var at []uint64
+		maxI := uint64(0)
+		for _, v := range idxV {
+			if seen[v] || v >= uint64(recs[i].n) {
+				continue
+			}
+			seen[v] = true
+			at = append(at, v)
+			sel = append(sel, ex.ts.Select(recs[i].tArr, ex.ts.BV(v, 32)))
+			if v+1 > maxI {
+				maxI = v + 1
+			}
 		}
 		vs := sol.GetValues(sel)
-		recs[i].Arr = make([]uint8, n)
-		for j := range vs {
-			recs[i].Arr[j] = uint8(vs[j])
+		recs[i].Arr = make([]uint8, maxI)
+		for j, v := range vs {
+			recs[i].Arr[at[j]] = uint8(v)
 		}
 	}
 	return recs
